@@ -621,6 +621,41 @@ def _norm_expr(t: str) -> str:
     return t.replace(" ", "")
 
 
+def form_ir_sample(repo, nargs, part, itg=None):
+    """(interpreter, arguments, nargs) for _compute_form_ir on a sample FormData; `itg` overrides the integral data groups."""
+    from ..absint import Interp, Node, _PyCall
+    from ..lnodes_model import load_classes
+
+    rep_name = REP
+    V = Node("FunctionSpace", name="V")
+    els = [Node("Element", basix_hash=_PyCall(lambda h_=h: h_)) for h in (11, 22, 33, 44)]
+    elA = Node("Element", basix_hash=_PyCall(lambda: 99))
+    args = [Node("Argument", name=f"a{i}", ufl_function_space=_PyCall(lambda: V), ufl_element=_PyCall(lambda e_=els[i]: e_)) for i in range(nargs)]
+    consts = [Node("Constant", name="k0", ufl_shape=()), Node("Constant", name="k1", ufl_shape=(2, 3)), Node("Constant", name="k2", ufl_shape=(2,))]
+    coefs = [Node("Coefficient", name="B", ufl_element=_PyCall(lambda: els[2])), Node("Coefficient", name="C", ufl_element=_PyCall(lambda: els[3]))]
+    # the original form has a further coefficient A (first position) that preprocessing eliminated: reduced_coefficients = [B, C]
+    coefA = Node("Coefficient", name="A", ufl_element=_PyCall(lambda: elA))
+    form = Node("Form", signature=_PyCall(lambda: "SIG"), arguments=_PyCall(lambda: list(args)), constants=_PyCall(lambda: list(consts)),
+                coefficients=_PyCall(lambda: [coefA] + list(coefs)))
+    if itg is None:
+        itg = [Node("IntegralData", integral_type="cell", subdomain_id=(3, "otherwise")), Node("IntegralData", integral_type="exterior_facet", subdomain_id=(7,))]
+    # the preprocessed form lost a constant and an argument-independent coefficient: a plausible but wrong source for every count
+    pre = Node("Form", signature=_PyCall(lambda: "SIG-PRE"), arguments=_PyCall(lambda: list(args)), constants=_PyCall(lambda: list(consts[1:])),
+               coefficients=_PyCall(lambda: list(coefs[1:])))
+    fd = Node("FormData", original_form=form, preprocessed_form=pre, reduced_coefficients=list(coefs), original_coefficient_positions=[1, 2], argument_elements=els[:nargs],
+              coefficient_elements=els[2:], integral_data=itg)
+    names = {(5, 0): "integral_a", (5, 1): "integral_b"}
+    domains = {"integral_a": ["dom_a"], "integral_b": ["dom_b1", "dom_b2"]}
+    onames = {id(coefs[0]): "beta", id(consts[1]): "kappa", id(form): "a"}
+    it = Interp(repo, load_classes(repo), primary=REP)
+    it.overrides["logger"] = Node("Logger", info=_PyCall(lambda *a: None), debug=_PyCall(lambda *a: None))
+    it.overrides["id"] = _PyCall(lambda o: id(o))
+    it.overrides["FormIR"] = _PyCall(lambda **k: Node("FormIR", **k))
+    tp = f"TensorPart.{part}"
+    return it, [fd, 5, "p", {5: "form_name"}, names, domains, onames, tp], nargs
+
+
+
 @rule(
     "FORM-IR-SOURCES",
     ["C06", "C05"],
@@ -640,31 +675,7 @@ def form_ir_sources(repo, res):
     res.functions.add(g.key)
 
     def sample(nargs, part):
-        V = Node("FunctionSpace", name="V")
-        els = [Node("Element", basix_hash=_PyCall(lambda h_=h: h_)) for h in (11, 22, 33, 44)]
-        elA = Node("Element", basix_hash=_PyCall(lambda: 99))
-        args = [Node("Argument", name=f"a{i}", ufl_function_space=_PyCall(lambda: V), ufl_element=_PyCall(lambda e_=els[i]: e_)) for i in range(nargs)]
-        consts = [Node("Constant", name="k0", ufl_shape=()), Node("Constant", name="k1", ufl_shape=(2, 3)), Node("Constant", name="k2", ufl_shape=(2,))]
-        coefs = [Node("Coefficient", name="B", ufl_element=_PyCall(lambda: els[2])), Node("Coefficient", name="C", ufl_element=_PyCall(lambda: els[3]))]
-        # the original form has a further coefficient A (first position) that preprocessing eliminated: reduced_coefficients = [B, C]
-        coefA = Node("Coefficient", name="A", ufl_element=_PyCall(lambda: elA))
-        form = Node("Form", signature=_PyCall(lambda: "SIG"), arguments=_PyCall(lambda: list(args)), constants=_PyCall(lambda: list(consts)),
-                    coefficients=_PyCall(lambda: [coefA] + list(coefs)))
-        itg = [Node("IntegralData", integral_type="cell", subdomain_id=(3, "otherwise")), Node("IntegralData", integral_type="exterior_facet", subdomain_id=(7,))]
-        # the preprocessed form lost a constant and an argument-independent coefficient: a plausible but wrong source for every count
-        pre = Node("Form", signature=_PyCall(lambda: "SIG-PRE"), arguments=_PyCall(lambda: list(args)), constants=_PyCall(lambda: list(consts[1:])),
-                   coefficients=_PyCall(lambda: list(coefs[1:])))
-        fd = Node("FormData", original_form=form, preprocessed_form=pre, reduced_coefficients=list(coefs), original_coefficient_positions=[1, 2], argument_elements=els[:nargs],
-                  coefficient_elements=els[2:], integral_data=itg)
-        names = {(5, 0): "integral_a", (5, 1): "integral_b"}
-        domains = {"integral_a": ["dom_a"], "integral_b": ["dom_b1", "dom_b2"]}
-        onames = {id(coefs[0]): "beta", id(consts[1]): "kappa", id(form): "a"}
-        it = Interp(repo, load_classes(repo), primary=REP)
-        it.overrides["logger"] = Node("Logger", info=_PyCall(lambda *a: None), debug=_PyCall(lambda *a: None))
-        it.overrides["id"] = _PyCall(lambda o: id(o))
-        it.overrides["FormIR"] = _PyCall(lambda **k: Node("FormIR", **k))
-        tp = f"TensorPart.{part}"
-        return it, [fd, 5, "p", {5: "form_name"}, names, domains, onames, tp], nargs
+        return form_ir_sample(repo, nargs, part)
 
     cases = {"bilinear form": (2, "full"), "bilinear form, diagonal part": (2, "diagonal"), "linear form": (1, "full"), "linear form with part=diagonal": (1, "diagonal"),
              "functional": (0, "full")}
